@@ -51,10 +51,29 @@ fn run_call(kind: usize, text: &str, shared: &Source, c: &Config) -> String {
 }
 
 fn main() {
-    let scen: usize = std::env::args().nth(1).and_then(|s| s.parse().ok()).unwrap_or(0) % DOCS.len();
-    let docs = DOCS[scen];
+    let args: Vec<String> = std::env::args().collect();
+    // `gen <doc0> <doc1> <width0> <width1>`: documents drawn by the harness from the seeded
+    // generator (thorough tier); otherwise a built-in scenario by index
+    let generated: Option<Vec<&'static str>> = if args.get(1).map(|s| s == "gen").unwrap_or(false) && args.len() >= 6 {
+        Some(vec![Box::leak(args[2].clone().into_boxed_str()) as &'static str, Box::leak(args[3].clone().into_boxed_str()) as &'static str])
+    } else {
+        None
+    };
+    let scen: usize = if generated.is_some() { 3 } else { args.get(1).and_then(|s| s.parse().ok()).unwrap_or(0) % DOCS.len() };
+    let docs: &[&'static str] = match &generated {
+        Some(v) => Box::leak(v.clone().into_boxed_slice()),
+        None => DOCS[scen],
+    };
     // two configurations that are active at the same time in different threads
-    let cfgs = if scen == 3 { [cfg(120, 2, false), cfg(40, 4, true)] } else { [cfg(80, 2, false), cfg(20, 4, true)] };
+    let cfgs = if generated.is_some() {
+        let w0 = args[4].parse().unwrap_or(120);
+        let w1 = args[5].parse().unwrap_or(40);
+        [cfg(w0, 2, false), cfg(w1, 4, true)]
+    } else if scen == 3 {
+        [cfg(120, 2, false), cfg(40, 4, true)]
+    } else {
+        [cfg(80, 2, false), cfg(20, 4, true)]
+    };
     let sources: Arc<Vec<Source>> = Arc::new(docs.iter().map(|d| Source::detached(*d)).collect());
     // the call table: (doc, config, kind); small, because Miri is ~1000x slower than native
     let mut table: Vec<(usize, usize, usize)> = Vec::new();
@@ -92,5 +111,5 @@ fn main() {
     for h in hs {
         h.join().expect("thread panicked");
     }
-    println!("miri-lane scenario {} ok", scen);
+    println!("miri-lane scenario {} ok", if generated.is_some() { "gen".to_string() } else { scen.to_string() });
 }
